@@ -13,6 +13,10 @@ TRANSLATORS = [
     ('design_spectra', 'py2coq_design', 'regenerate'),
     ('effects_ir', 'py2ir_effects', 'regenerate'),
     ('cache_events', 'py2coq_cache_events', 'regenerate'),
+    ('c13', 'py2coq_c13', 'regenerate'),
+    ('c17_signalops', 'py2coq_c17', 'regenerate'),
+    ('c06_fourier', 'py2coq_c06', 'regenerate'),
+    ('helpers', 'py2coq_helpers', 'regenerate'),
 ]
 
 
